@@ -70,8 +70,8 @@ def u_in_direction():
 
     def entry(eng, args):
         a, b = args
-        cw = eng.call('angles::angle_in_direction', [a, b, En('Cw')])
-        ccw = eng.call('angles::angle_in_direction', [a, b, En('Ccw')])
+        cw = eng.call('angles::angle_in_direction', [a, b, En('Cw', (), 'AngleDir')])
+        ccw = eng.call('angles::angle_in_direction', [a, b, En('Ccw', (), 'AngleDir')])
         return [cw, ccw]
 
     def make(eng):
@@ -268,8 +268,8 @@ def u_vec_angles(d1=0, d2=4):
     def entry(eng, args):
         x, y = args
         s = eng.call('angles2::signed_angle', [Ref.to(list(x)), Ref.to(list(y))])
-        cw = eng.call('angles2::directed_angle', [Ref.to(list(x)), Ref.to(list(y)), En('Cw')])
-        ccw = eng.call('angles2::directed_angle', [Ref.to(list(x)), Ref.to(list(y)), En('Ccw')])
+        cw = eng.call('angles2::directed_angle', [Ref.to(list(x)), Ref.to(list(y)), En('Cw', (), 'AngleDir')])
+        ccw = eng.call('angles2::directed_angle', [Ref.to(list(x)), Ref.to(list(y)), En('Ccw', (), 'AngleDir')])
         return [s, cw, ccw]
 
     def make(eng):
